@@ -492,8 +492,13 @@ pub fn gen_body(rng: &mut Rng, consume_focus: bool, big: bool) -> ConnCase {
 /// upgrade requests: the body is everything that follows
 pub fn gen_upgrade(rng: &mut Rng) -> ConnCase {
     let mut r = AReq::get("/ws");
-    r.hdrs.push((crate::recase(rng, "Connection"), (*rng.pick(&["upgrade", "Upgrade", "keep-alive, Upgrade"])).to_string()));
-    r.hdrs.push(("Upgrade".into(), "websocket".into()));
+    r.hdrs.push((crate::recase(rng, "Connection"), (*rng.pick(&["upgrade", "Upgrade", "keep-alive, Upgrade", "Upgrade, HTTP2-Settings"])).to_string()));
+    // whatever protocol is offered, and whether or not the application takes the offer up, the
+    // request is the connection's last one and its body is the rest of the stream
+    r.hdrs.push(("Upgrade".into(), (*rng.pick(&["websocket", "h2c", "h2c", "h2c, websocket", "TLS/1.0, HTTP/1.1"])).into()));
+    if rng.chance(1, 3) {
+        r.hdrs.push(("HTTP2-Settings".into(), "AAMAAABkAARAAAAAAAIAAAAA".into()));
+    }
     if rng.chance(1, 2) {
         r.hdrs.push(("Content-Length".into(), "3".into())); // ignored: upgrade wins
         r.declared = Some(3);
@@ -502,6 +507,11 @@ pub fn gen_upgrade(rng: &mut Rng) -> ConnCase {
     r.last = true;
     let n = *rng.pick(&[0usize, 1, 10, 1500, 5000]);
     r.body = body_of(rng, n);
+    if rng.chance(1, 3) {
+        // bytes that would make a request if anybody parsed them
+        r.body = b"GET /smuggled HTTP/1.1\r\nHost: x\r\n\r\n".to_vec();
+    }
+    let n = r.body.len();
     let fin = if rng.chance(1, 2) {
         Finish::Upgrade(b"websocket".to_vec(), RespSpec { status: 101, hdrs: vec![], declared: Some(0), thr: None, pieces: vec![] }, raw_message(0, rng))
     } else {
@@ -551,6 +561,9 @@ pub const BAD_505: &[&[u8]] = &[
     b"GET /v3 HTTP/3.0\r\n\r\n",
     b"POST /v2 HTTP/2.0\r\nContent-Length: 4\r\n\r\nbody",
     b"POST /v2 HTTP/2.0\r\nContent-Length: 20\r\n\r\n01234567890123456789",
+    // what a refused request says about the connection is not acted upon: the connection stays
+    b"GET /v2 HTTP/2.0\r\nHost: x\r\nConnection: close\r\n\r\n",
+    b"GET /v2 HTTP/2.0\r\nHost: x\r\nConnection: Upgrade, HTTP2-Settings\r\nUpgrade: h2c\r\nHTTP2-Settings: AAMAAABkAAQAAP__\r\n\r\n",
 ];
 pub const BAD_SILENT: &[&[u8]] = &[b"GET /\xc3\xa9 HTTP/1.1\r\nHost: x\r\n\r\n", b"GET / HTTP/1.1\r\nX-Name: caf\xe9\r\n\r\n", b"G\xffT / HTTP/1.1\r\n\r\n"];
 
@@ -625,14 +638,45 @@ pub fn gen_bad(rng: &mut Rng, class: &'static str, raw: &[u8], pos: usize, late:
     // a client that sends a request in a version the server does not speak and WAITS for the
     // answer on the open connection: the 505 must arrive without anything else being sent
     let waits = class == "e505" && rng.chance(1, 3);
-    let n_tail = if waits { 0 } else { rng.range(0, 2) };
+    let n_tail = if waits { 0 } else if class == "e505" { rng.range(0, 3) } else { rng.range(0, 2) };
     for i in 0..n_tail {
         reqs.push(AReq::get(&format!("/tail{}", i)));
     }
-    for i in 0..3 {
+    for i in 0..4 {
         script.push(simple_action(pos + i, rng));
     }
     assemble(rng, &reqs, script, if waits { Mode::Open } else { Mode::HalfClose }, "")
+}
+
+/// C10: a run of requests the server refuses while keeping the connection (HTTP/2.0, HTTP/3.0),
+/// each with a head of a few KiB, between ordinary requests: the connection stays usable
+/// afterwards, and a malformed head behind the run still gets its 400.
+pub fn gen_refused_run(rng: &mut Rng) -> ConnCase {
+    let mut reqs = vec![];
+    let mut script = vec![];
+    let pos = rng.below(3);
+    for i in 0..pos {
+        reqs.push(AReq::get(&format!("/good{}", i)));
+        script.push(simple_action(i, rng));
+    }
+    let k = rng.range(2, 6);
+    for j in 0..k {
+        let pad = *rng.pick(&[20usize, 1500, 3000, 3000, 7000]);
+        let raw = format!("GET /refused{} HTTP/{}.0\r\nHost: x\r\nX-Pad: {}\r\n\r\n", j, if rng.chance(1, 2) { 2 } else { 3 }, "p".repeat(pad));
+        reqs.push(AReq::bad("e505", raw.into_bytes()));
+    }
+    if rng.chance(1, 3) {
+        reqs.push(AReq::bad("e400", b"GET /after HTTP/1.1\r\nNoColonHere\r\n\r\n".to_vec()));
+    } else {
+        let n_tail = rng.range(1, 3);
+        for i in 0..n_tail {
+            reqs.push(AReq::get(&format!("/tail{}", i)));
+        }
+    }
+    for i in 0..4 {
+        script.push(simple_action(pos + i, rng));
+    }
+    assemble(rng, &reqs, script, Mode::HalfClose, "")
 }
 
 pub const CONN_VALUES: &[&str] = &["close", "Close", "CLOSE", "keep-alive", "Keep-Alive", "upgrade", "foo", "keep-alive, foo", "foo, close", "close, keep-alive", "TE", "", "enclosed", "keepalive"];
@@ -657,6 +701,10 @@ pub fn gen_c12(rng: &mut Rng) -> ConnCase {
                 if v.to_ascii_lowercase().contains("upgrade") {
                     r.upgrade = true;
                 }
+                // a second Connection field behind the deciding one changes nothing
+                if rng.chance(1, 5) {
+                    r.hdrs.push((crate::recase(rng, "Connection"), (*rng.pick(&["keep-alive", "Keep-Alive", "x-trace"])).into()));
+                }
             } else {
                 match rng.below(4) {
                     0 => {}
@@ -669,6 +717,9 @@ pub fn gen_c12(rng: &mut Rng) -> ConnCase {
         } else if r.ver == (1, 0) {
             let v = *rng.pick(&["keep-alive", "Keep-Alive", "keep-alive, foo", "KEEP-ALIVE"]);
             r.hdrs.push((crate::recase(rng, "Connection"), v.into()));
+            if rng.chance(1, 5) {
+                r.hdrs.push((crate::recase(rng, "Connection"), (*rng.pick(&["x-trace", "foo"])).into()));
+            }
         } else if rng.chance(1, 2) {
             let v = *rng.pick(&["keep-alive", "foo", "TE", "", "keepalive"]);
             r.hdrs.push((crate::recase(rng, "Connection"), v.into()));
